@@ -107,6 +107,75 @@ Section Frames.
       + destruct fd; [destruct H as [H|[]]; discriminate|contradiction].
   Qed.
 
+  (* result objects and files are written once, by the operation that creates them; module-level objects never;
+     numpy's global random state only by the Monte-Carlo entry points; matplotlib's registry only by plotting *)
+  Lemma side_cells t o c : In c (wset t o) ->
+    match c with
+    | Obj x | File x => x = t
+    | Glob _ => False
+    | Rng => exists k e args, o = Eval k e args /\ may_use_rng e = true
+    | Figs => (exists k e args, o = Eval k e args /\ plots e = true) \/ (exists x args, o = OnContour x PlotContour args)
+    | _ => True
+    end.
+  Proof.
+    destruct o as [k e args|x p args|k d fd]; cbn [Heap.wset]; intros H.
+    - destruct H as [H|H]; [subst c; reflexivity|].
+      apply in_app_or in H. destruct H as [H|H].
+      { destruct (may_use_rng e) eqn:E; [destruct H as [H|[]]; subst c; eauto|contradiction]. }
+      apply in_app_or in H. destruct H as [H|H].
+      { destruct (plots e) eqn:E; [destruct H as [H|[]]; subst c; left; eauto|contradiction]. }
+      destruct e; try contradiction. destruct H as [H|[]]. subst c. exact I.
+    - destruct p; cbn in H.
+      + destruct H as [H|[]]. subst c. reflexivity.
+      + destruct H as [H|[H|[]]]; subst c; [reflexivity|right; eauto].
+      + destruct H as [H|[]]. subst c. reflexivity.
+    - apply in_app_or in H. destruct H as [H|H].
+      + apply in_fit_writes in H. destruct H as [i [H|[H|[p H]]]]; subst c; exact I.
+      + destruct fd; [destruct H as [H|[]]; subst c; exact I|contradiction].
+  Qed.
+
+  (* a contour / result object is never changed after the operation that built it (nor a written file) *)
+  Theorem objects_immutable : forall ops t (h : heap V) c, c < t ->
+    run t ops h (Obj c) = h (Obj c) /\ run t ops h (File c) = h (File c).
+  Proof.
+    intros ops t h c Hc. split; apply run_unchanged; intros i o _ Hw; apply side_cells in Hw; cbn in Hw; lia.
+  Qed.
+
+  Theorem globals_untouched : forall ops t (h : heap V) g, run t ops h (Glob g) = h (Glob g).
+  Proof. intros. apply run_unchanged. intros i o _ Hw. apply side_cells in Hw. exact Hw. Qed.
+
+  Theorem rng_untouched : forall ops t (h : heap V),
+    (forall o k e args, In o ops -> o = Eval k e args -> may_use_rng e = false) -> run t ops h Rng = h Rng.
+  Proof.
+    intros ops t h Hn. apply run_unchanged. intros i o Hi Hw. apply side_cells in Hw.
+    destruct Hw as [k [e [args [E R]]]]. rewrite (Hn o k e args (nth_error_In _ _ Hi) E) in R. discriminate.
+  Qed.
+
+  Theorem figs_untouched : forall ops t (h : heap V),
+    (forall o k e args, In o ops -> o = Eval k e args -> plots e = false) ->
+    (forall o x args, In o ops -> o <> OnContour x PlotContour args) -> run t ops h Figs = h Figs.
+  Proof.
+    intros ops t h Hn Hp. apply run_unchanged. intros i o Hi Hw. apply side_cells in Hw.
+    pose proof (nth_error_In _ _ Hi) as Ho. destruct Hw as [[k [e [args [E R]]]]|[x [args E]]].
+    - rewrite (Hn o k e args Ho E) in R. discriminate.
+    - exact (Hp o x args Ho E).
+  Qed.
+
+  (* fitting writes inside the region of the model it fits (and the caller's fit_descriptions) *)
+  Lemma fit_writes_in_region k c : In c (fit_writes shape k) -> In c (region shape k).
+  Proof.
+    unfold fit_writes, region. rewrite in_flat_map. intros [[i d] [Hid H]]. right. right.
+    apply in_flat_map. exists (i, d). split; [exact Hid|]. cbn [fst snd] in *. unfold dim_cells. destruct d as [m|].
+    - apply in_or_app. destruct H as [H|H]; [left; subst c; cbn; auto|right; exact H].
+    - destruct H as [H|[]]. subst c. left. reflexivity.
+  Qed.
+
+  Theorem fit_footprint k d fd t c : In c (wset t (Fit k d fd)) -> In c (region shape k) \/ (exists a, fd = Some a /\ c = FitDesc a).
+  Proof.
+    cbn [Heap.wset]. intros H. apply in_app_or in H. destruct H as [H|H]; [left; apply fit_writes_in_region; exact H|].
+    right. destruct fd as [a|]; [destruct H as [H|[]]; eauto|contradiction].
+  Qed.
+
   Definition fits (k : nat) (o : op) : Prop := exists d fd, o = Fit k d fd.
 
   (* HISTORY: over any history, the parameters of model k (everything but the sample cache) change only when
